@@ -1,16 +1,21 @@
 """C13 — extensions are inert on documents that do not use their syntax.
 
 Theorems: coq/Props/C13.v (tables of Subject::new, find_special_char, parse_inline arm selection; option read
-audit).  Tie: translator item `special` (Gen/Special.v, Gen/AuditOptions.v regenerated from src/parser/*.rs and
-src/html.rs on every run).  The block openers and the whole parser are NOT modelled: the full statement
-(C13_full_statement) is evaluated on the compiled library by a metamorphic search:
+audit; and, about the parser MODEL: inline phase -- parse_inline step, inline_loop, process_emphasis, parse_inlines
+with a feature on = off on content without the feature's trigger bytes; block phase -- parse_blocks with an opener
+on refines off on documents without its trigger byte; refutations for greentext, description lists (tilde), the
+specification's string form under smart punctuation, and the post-processing hooks on decoded text).
+Ties: translator item `special` (Gen/Special.v, Gen/AuditOptions.v regenerated from src/parser/*.rs and
+src/html.rs on every run), inlines_tie and blocks_tie (model vs compiled parser).  The composition of the phases up
+to the HTML is NOT proved: the full statement (C13_full_statement) is evaluated on the compiled library by a
+metamorphic search:
 
     for every feature F, every document d with  free_of F d  (extracted Spec/Triggers.v predicate) and every
     base option set B without F:      md html B d  ==  md html (B + F) d        byte for byte
 
 over (a) every document of length <= 3 (quick) / <= 4 (thorough) on a 29-byte alphabet of Markdown-significant
 bytes, under the bases {none, GFM, every extension}, and (b) grammar documents (tools/docgen.py) from which F's
-trigger strings were removed, under random bases.  Failures are classified into the known classes C13-a..e
+trigger strings were removed, under random bases.  Failures are classified into the known classes C13-a..f
 (known_findings.json); anything else is shrunk and reported as a violation."""
 import itertools, os, re, subprocess
 import vlib, docgen, shrink
@@ -36,6 +41,9 @@ CORPUS = [
     ("smart", {}, "a - b . c .. d - - e"), ("header_ids", {}, "a\n\n    b\n\n<h1>c</h1>"), ("front_matter_delimiter", {}, "--\na: b\n--\n\n- -\nc"),
     ("tagfilter", {"unsafe": True}, "&lt;script&gt; `script` \\script"), ("strikethrough", {"subscript": False}, "a - b -- c"), ("subscript", {"strikethrough": True}, "H2O ^2^"),
     ("relaxed_tasklist_matching", {"tasklist": True}, "- (~) a\n- ~ b"),
+    # C13-f: postprocess_text_nodes reads the decoded text (witnesses of Props/C13.v: C13_postprocess_*_refuted)
+    ("autolink", {}, "a&#64;b.co"), ("autolink", {}, "x&commat;y.zz foo"), ("tasklist", {}, "- &#91;x] a"), ("tasklist", {}, "- &#x5B;x&#93; a"),
+    ("relaxed_tasklist_matching", {"tasklist": True}, "- &lsqb;~] a"),
 ]
 
 
@@ -142,6 +150,8 @@ RE_FOOTDEF = re.compile(r"\[\^([^\]\r\n\x00\t ]+)\]:")
 RE_FOOTDEF_LINE = re.compile(r"[ ]{0,3}([-+*]|\d+[.)])?[ \t]*\[\^[^\]\r\n\x00\t ]+\]:")
 RE_TILDE_ITEM = re.compile(r"~[ \t]")
 RE_ESC_CARET = re.compile(r"\[(\\\^|&#0*94;|&#[xX]0*5[eE];|&Hat;)")
+RE_REF_AT = re.compile(r"&#0*64;|&#[xX]0*40;|&commat;")
+RE_REF_LBRACKET = re.compile(r"&#0*91;|&#[xX]0*5[bB];|&lsqb;|&lbrack;")
 
 
 def classify(F, doc, base, vh):
@@ -185,6 +195,10 @@ def classify(F, doc, base, vh):
         return "spoiler_single_bar"
     if F == "footnotes" and RE_ESC_CARET.search(doc):
         return "footnote_escaped_caret"
+    if F in ("autolink", "relaxed_autolinks") and RE_REF_AT.search(doc):
+        return "postprocess_decoded_trigger"
+    if F in ("tasklist", "relaxed_tasklist_matching") and RE_REF_LBRACKET.search(doc):
+        return "postprocess_decoded_trigger"
     return None
 
 
@@ -244,6 +258,9 @@ def main(tier):
     # table; its tie to the compiled parser makes "a byte outside the table is literal text" a fact about the code
     from checks import layerc
     layerc.inlines(c, tier, 0.25 if tier == "quick" else 0.1, profile=profile)
+    # the block openers: Props/C13.v states their inertness about Model/Blocks.v (parse_blocks); the tie makes it a
+    # statement about the compiled block parser
+    layerc.blocks(c, tier, 0.1)
 
     # ------------------------------------------------------------------ the specification's features and triggers
     feats = [unhx(x).decode() for x in vlib.run_one(drv, "c13_features").split()[1:]]
